@@ -1222,6 +1222,14 @@ func (t *Table) MergeCellsVertical(startRow, endRow, col int) error {
 		}
 	}
 
+	// 左侧有水平合并时物理索引相同的单元格可能位于不同的网格列：垂直合并的单元格必须网格列和跨度都相同
+	gridStart, gridSpan := cellGridStart(&t.Rows[startRow], col), cellGridSpan(&t.Rows[startRow].Cells[col])
+	for i := startRow + 1; i <= endRow; i++ {
+		if cellGridStart(&t.Rows[i], col) != gridStart || cellGridSpan(&t.Rows[i].Cells[col]) != gridSpan {
+			return fmt.Errorf("第%d行第%d列与第%d行第%d列不在同一网格列或跨度不同，无法垂直合并", i, col, startRow, col)
+		}
+	}
+
 	// 设置起始单元格为合并起始
 	startCell := &t.Rows[startRow].Cells[col]
 	if startCell.Properties == nil {
@@ -1253,6 +1261,13 @@ func (t *Table) MergeCellsRange(startRow, endRow, startCol, endCol int) error {
 	// 验证范围
 	if startRow < 0 || endRow >= len(t.Rows) || startRow > endRow {
 		return fmt.Errorf("行索引范围无效：[%d, %d]", startRow, endRow)
+	}
+
+	// 各行的起始单元格必须位于同一网格列（某行左侧有水平合并时，物理索引相同的单元格位于不同的网格列）
+	for i := startRow + 1; i <= endRow; i++ {
+		if cellGridStart(&t.Rows[i], startCol) != cellGridStart(&t.Rows[startRow], startCol) {
+			return fmt.Errorf("第%d行第%d列与第%d行第%d列不在同一网格列，无法合并区域", i, startCol, startRow, startCol)
+		}
 	}
 
 	// 先验证所有行的列范围，保证返回错误时表格保持不变
@@ -1304,6 +1319,9 @@ func (t *Table) UnmergeCells(row, col int) error {
 		return fmt.Errorf("单元格没有合并")
 	}
 
+	// 垂直合并按网格列定位：先记录该单元格的网格列和跨度
+	gridStart, gridSpan := cellGridStart(&t.Rows[row], col), cellGridSpan(cell)
+
 	// 检查是否有水平合并
 	if cell.Properties.GridSpan != nil {
 		// 获取合并的列数
@@ -1340,21 +1358,14 @@ func (t *Table) UnmergeCells(row, col int) error {
 
 		// 查找并恢复被合并的单元格
 		for i := row + 1; i < len(t.Rows); i++ {
-			if col < len(t.Rows[i].Cells) {
-				otherCell := &t.Rows[i].Cells[col]
-				if otherCell.Properties != nil && otherCell.Properties.VMerge != nil {
-					if otherCell.Properties.VMerge.Val == "continue" {
-						// 恢复单元格内容
-						otherCell.Properties.VMerge = nil
-						if len(otherCell.Paragraphs) == 0 {
-							otherCell.Paragraphs = []Paragraph{{}}
-						}
-					} else {
-						break
-					}
-				} else {
-					break
-				}
+			otherCell := t.cellAtGrid(i, gridStart, gridSpan)
+			if otherCell == nil || cellVMerge(otherCell) != "continue" {
+				break
+			}
+			// 恢复单元格内容
+			otherCell.Properties.VMerge = nil
+			if len(otherCell.Paragraphs) == 0 {
+				otherCell.Paragraphs = []Paragraph{{}}
 			}
 		}
 	}
